@@ -139,6 +139,7 @@ class Exec:
         self.nqueries = 0
         self.solver_s = 0.0
         self.funcs_run = set()
+        self.fp_conversions = 0
 
     def feasible(self, pc):
         import time
@@ -351,6 +352,7 @@ class Exec:
             m = re.match(r"(%\d+) = (fptosi|fptoui) double (%\d+) to (\w+)", ins)
             if m:
                 dst, op, src, ty = m.groups()
+                self.fp_conversions += 1           # out-of-range conversion is undefined behaviour (result unspecified in z3 too)
                 f = z3.fpToSBV if op == "fptosi" else z3.fpToUBV
                 r = f(z3.RTZ(), z3.fpBVToFP(env[src], F64), z3.BitVecSort(max(8, width(ty))))
                 env[dst] = (r != 0) if ty == "i1" else r
